@@ -34,6 +34,7 @@ type FanSpec struct {
 	OrigMode  int             `json:"origMode"`
 	OrigPwm   int             `json:"origPwm"`
 	RpmAvg0   float64         `json:"rpmAvg0,omitempty"` // hwmon: average known from detection
+	Slew      int             `json:"slew,omitempty"`    // > 0: the reported RPM follows 10*pwm by at most Slew per read (settle time)
 }
 
 type LoopSpec struct {
@@ -151,6 +152,7 @@ type Rig struct {
 	Rpm       *Dev
 	Curve     *ScriptCurve
 	law       *RpmLaw
+	lagRpm    int
 	lawMu     sync.Mutex
 	paths     []string
 	CurveName string
@@ -207,6 +209,16 @@ func BuildRig(spec FanSpec, slot int, law RpmLaw, curve0 int) *Rig {
 	r.Rpm.ReadFn = func() int {
 		r.lawMu.Lock()
 		defer r.lawMu.Unlock()
+		if spec.Slew > 0 {
+			target := 10 * r.Pwm.Get()
+			switch {
+			case r.lagRpm < target:
+				r.lagRpm = min(target, r.lagRpm+spec.Slew)
+			case r.lagRpm > target:
+				r.lagRpm = max(target, r.lagRpm-spec.Slew)
+			}
+			return r.lagRpm
+		}
 		if r.Pwm.Get() >= r.law.Theta {
 			return r.law.Rpm
 		}
